@@ -5,21 +5,26 @@ PROP = dict(
         gotest="TestC14",
         translator="arithC14",
         extra_props=["ArithTieC14"],
-        model="coq/Models/Vesting.v (exact: VestedSoFar, ProcessTokenVesting, ClaimVesting, CancelVest, VestNow, UpdateVestingInfo)",
+        model="coq/Models/Vesting.v (exact: VestedSoFar, ProcessTokenVesting, VestLiquid + DepositLiquidTokensClaimed, ClaimVesting per vesting denom, CancelVest over the one mixed list, VestNow, UpdateVestingInfo for two infos, module custody of the liquid denom)",
         coq_deps=["Base/", "Models/Vesting.v", "Proofs/VestingProofs.v", "Run/VestingRun.v", "Props/C14.v", "Generated/ArithC14.v", "Proofs/ArithTieTac.v", "Proofs/ArithTieC14.v", "Props/ArithTieC14.v"],
-        rule="histories of 25-55 ops (vest/claim/cancel/vest_now/gov/enable_now/blocks) over 3 accounts on a fresh real app each; "
-             "amounts relative to the available Eden / outstanding vesting (1, 0.1%, 1/3, 1/2, all-1, all, all+1, 2x), initial Eden 1..1e26, "
-             "block advances 1,2,3,N/2,N-1,N,N+1; distinct = distinct (op,result,account) sequence; non-trivial = at least one successful "
-             "vest, cancel, vest-now or a claim that released something",
+        rule="histories of 25-55 ops (vest/vest_liquid/claim/cancel/vest_now/gov/gov_liquid/enable_now/blocks) over 3 accounts on a fresh real app each; "
+             "75% of the histories get a second vesting info uusdc->uusdc through the real MsgUpdateVestingInfo (own NumBlocks incl. 0, own NumMaxVestings), users hold uusdc; "
+             "35% start with a directed prefix that builds one of the list shapes [usdc,elys] [elys,usdc,elys] [zero-block elys,elys] [usdc,usdc,elys] "
+             "[zero-block usdc,elys,usdc] [elys,zero-block elys,usdc,elys] and cancels from it (partially, newest only, everything, too much) and claims; "
+             "amounts relative to the available Eden / wallet / outstanding vesting (1, 0.1%, 1/3, 1/2, all-1, all, all+1, 2x), initial Eden 1..1e26, "
+             "block advances 1,2,3,N/2,N-1,N,N+1; cancel with the wrong denom; distinct = distinct (op,result,account) sequence; non-trivial = at least one successful "
+             "vest, vest-liquid, cancel, vest-now or a claim that released something; the op histogram counts the cancels that ran over a list with a skipped entry in front of a running ELYS schedule",
         trusted_base=["tools/gotrans arith (Go AST + go/types -> Gallina over Base/Zdec.v): the method table of coq/Generated/ARITH_README.md (Int/LegacyDec method -> Zdec function, validated by TestZdec); what the opaque readers of a translated function return is covered by the correspondence run only",
-                      "only the ueden->uelys vesting info is modelled (VestLiquid of other denoms is not)",
+                      "two vesting infos are modelled: ueden->uelys and ONE liquid denom vested into itself (uusdc->uusdc; its asset-profile entry with CommitEnabled is set by the fixture); a liquid info whose VestingDenom differs from its BaseDenom, a third info, and MsgVest/MsgVestNow with the liquid denom (always refused: its Claimed bucket is empty between transactions, checked) are not exercised",
                       "claimable Eden is seeded through CommitmentKeeper.SetCommitments (fixture), not earned"],
         modelled="x/commitment vesting handlers as Gallina functions over Z; " + COMMON_MODELLED,
-        level_text="Theorems (Coq, closed under the global context) over an exact Gallina model of the vesting handlers: conservation and "
+        level_text="Theorems (Coq, closed under the global context) over an exact Gallina model of the vesting handlers: conservation PER VESTING DENOM "
+                   "(put in = released + returned + outstanding; liquid wallet + outstanding = initial wallet; module custody = sum of what all liquid schedules owe) and "
                    "0<=claimed<total for every account after EVERY history (induction over the op list), per-entry monotone/<=total/linear/complete, "
-                   "claim never fails in any reachable state, cancel and vest-now exact. The model is replayed by Coq's VM on the very op sequences "
-                   "the real app executed and must reproduce result kind, Eden, ELYS balance and every vesting entry after every step.",
-        level_note="Trusted: Coq kernel+VM; the Go harness; the model covers only the ueden->uelys vesting info. Since fix: 3c63217 a zero-block schedule is released "
-                   "at once and the claim handler cannot fail for any schedule length (C14_claim_never_fails); the accounting theorem C14_claim_succeeds is stated for NumBlocks > 0.",
-        assumptions=["C14_claim_succeeds (exact accounting of what a claim pays) is stated for histories in which governance keeps NumBlocks > 0; that the claim cannot fail holds unconditionally (C14_claim_never_fails)"],
+                   "claim never fails in any reachable state for any schedule length (the module always holds what it pays), a claim pays each denom exactly the newly vested amounts of ITS entries, "
+                   "a cancel leaves every entry of another denom identical at its position, cancel / vest-liquid / vest-now exact. The model is replayed by Coq's VM on the very op sequences "
+                   "the real app executed and must reproduce result kind, Eden, ELYS and uusdc balance, the module's uusdc custody and every vesting entry (with its denom) after every step.",
+        level_note="Trusted: Coq kernel+VM; the Go harness; the model covers two vesting infos (ueden->uelys, uusdc->uusdc). Since fix: 3c63217 a zero-block schedule is released "
+                   "at once and the claim handler cannot fail for any schedule length (C14_claim_never_fails); C14_claim_succeeds (exact accounting per denom in every reachable state) no longer assumes NumBlocks > 0.",
+        assumptions=["initial states: claimable Eden and the liquid wallet are non-negative, no vesting entries, the second vesting info absent, module custody of the liquid denom zero (what the harness builds)"],
     )
